@@ -532,6 +532,14 @@ class DatasetProcessor:
 
         self.process_assigned_reads(sample, saves_file)
         if not self.args.read_assignments and not self.args.keep_tmp:
+            # locks go first: as long as a lock exists the files it guards must exist too,
+            # otherwise a run killed during this clean-up could never be resumed
+            chr_ids = self.get_chr_list()
+            for lock_file in [saves_file + "_lock", read_group_lock_filename(sample)]:
+                if os.path.exists(lock_file):
+                    os.remove(lock_file)
+            clean_locks(chr_ids, saves_file, reads_collected_lock_file_name)
+            clean_locks(chr_ids, saves_file, reads_processed_lock_file_name)
             for f in glob.glob(saves_file + "_*"):
                 os.remove(f)
             for f in glob.glob(sample.read_group_file + "*"):
@@ -726,6 +734,10 @@ class DatasetProcessor:
             if not self.args.no_model_construction:
                 for k, v in tsc.stats_dict.items():
                     transcript_stat_counter.stats_dict[k] += v
+
+        # merging consumes the per-chromosome files: from here on no chromosome may count as processed, otherwise
+        # a run killed during merging could never be resumed (its per-chromosome files are partly gone)
+        clean_locks(chr_ids, dump_filename, reads_processed_lock_file_name)
 
         if not self.args.no_model_construction:
             self.merge_transcript_models(sample.prefix, aggregator, chr_ids, gff_printer)
